@@ -113,11 +113,16 @@ func OpErr(key string) *net.OpError {
 		return &net.OpError{Op: "dial", Net: "tcp", Err: &net.DNSError{Err: "no such host", Name: "mx.c16.invalid", IsNotFound: true}}
 	case "dns1":
 		return &net.OpError{Op: "dial", Net: "tcp", Err: &net.DNSError{Err: "server misbehaving", Name: "mx.c16.invalid", IsTemporary: true}}
+	case "dnsc":
+		// the lookup of the dial interrupted by the cancellation of its context, as the resolver wraps it
+		return &net.OpError{Op: "dial", Net: "tcp", Err: &net.DNSError{Err: "operation was canceled", Name: "mx.c16.invalid", UnwrapErr: context.Canceled}}
+	case "cancel":
+		return &net.OpError{Op: "dial", Net: "tcp", Addr: addr, Err: context.Canceled}
 	}
 	panic("vc16: unknown network error " + key)
 }
 
-var OpKeys = []string{"refused", "reset", "timeout", "eof", "ctx", "dns0", "dns1"}
+var OpKeys = []string{"refused", "reset", "timeout", "eof", "ctx", "dns0", "dns1", "dnsc", "cancel"}
 
 // Conv are the two real conversions (exported from their packages by the zz_verif_c16_export.go files).
 type Conv struct {
